@@ -36,6 +36,8 @@ enum TOp {
     LPop(usize),
     GPush(u32),
     GPop,
+    /// `LocalQueue::len()` / `OrderedLocalQueue::len()`: the total over all queues, from any thread
+    Len(usize),
 }
 
 fn prio_of(id: u32) -> i64 {
@@ -78,6 +80,9 @@ fn qscn() -> Vec<QScn> {
         v.push(mk(n("c03.G6.ordered", "c03.G6.plain"), "owner push+pop || thief", 2, 4, vec![LPush(0, 1)], vec![vec![LPush(0, 3), LPop(0)], vec![LPop(1)]], 1, false));
         v.push(mk(n("c03.G10.ordered", "c03.G10.plain"), "owner overflows a full queue || sibling steals from it", 2, 2, vec![LPush(0, 1), LPush(0, 3)], vec![vec![LPush(0, 5)], vec![LPop(1)]], 1, false));
         v.push(mk(n("c03.G11.ordered", "c03.G11.plain"), "owner overflows a full queue (cap 4) || two siblings steal from it", 3, 4, vec![LPush(0, 1), LPush(0, 3), LPush(0, 5), LPush(0, 7)], vec![vec![LPush(0, 9)], vec![LPop(1)], vec![LPop(2)]], 1, false));
+        if ordered {
+            v.push(mk("c03.G12.ordered", "another loop asks for the total length (pool.size()/is_empty()) while the owner pushes and a sibling steals", 3, 4, vec![LPush(0, 1), LPush(0, 3), LPush(0, 5), LPush(0, 7)], vec![vec![LPush(0, 9)], vec![LPop(1)], vec![Len(2)]], 1, false));
+        }
         v.push(mk(n("c03.G7.ordered", "c03.G7.plain"), "3 threads: push, push, pop on shared", 1, 2, vec![], vec![vec![GPush(1)], vec![GPush(2)], vec![GPop]], 1, true));
         v.push(mk(n("c03.G8.ordered", "c03.G8.plain"), "owner overflow || thief || shared pop", 2, 2, vec![LPush(0, 1)], vec![vec![LPush(0, 3), LPush(0, 5)], vec![LPop(1)], vec![GPop]], 1, true));
         v.push(mk(n("c03.G9.ordered", "c03.G9.plain"), "mixed priorities: pushes of both priorities || pops", 1, 2, vec![GPush(2)], vec![vec![GPush(1), GPop], vec![GPush(4), GPop]], 1, true));
@@ -122,6 +127,8 @@ impl Q {
             (Q::Ordered(g, _), TOp::GPush(id)) => { unsafe { &**g }.push(it(id)); None }
             (Q::Plain(g, _), TOp::GPop) => unsafe { &**g }.pop().map(|x| x.id),
             (Q::Ordered(g, _), TOp::GPop) => unsafe { &**g }.pop().map(|x| x.id),
+            (Q::Plain(_, l), TOp::Len(q)) => { let _ = l[q].len(); None }
+            (Q::Ordered(_, l), TOp::Len(q)) => { let _ = l[q].len(); None }
         }
     }
     fn shared_len(&self) -> usize {
@@ -400,7 +407,7 @@ pub fn run(group: &str, tier: &str, rep: &mut Report) -> bool {
     for (name, prop, what, choices, _ordered, class) in subs {
         // the 3-thread overflow scenario is too large for bound 2 in the quick tier; the bound is
         // iterated: 1 in quick, 2 in thorough (reported per scenario in the evidence)
-        let pb = if name.contains(".G11.") { pb - 1 } else { pb };
+        let pb = if name.contains(".G11.") || name.contains(".G12.") { pb - 1 } else { pb };
         for choice in 0..choices {
             let ck = format!("out/loom/{name}.{choice}.checkpoint.json");
             let _ = std::fs::remove_file(&ck);
